@@ -104,16 +104,19 @@ func (st *Statement) QueryContext(ctx context.Context, v []driver.NamedValue) (d
 
 	stmt, err := sqsql.Parse(st.SQL)
 	if err != nil {
+		cancel()
 		return nil, err
 	}
 	sel, ok := stmt.(sqsql.SelectStmt)
 	if !ok {
+		cancel()
 		return nil, fmt.Errorf("only SELECT is supported (we got a %T)", stmt)
 	}
 	table := sel.Table
 
 	cols, err := st.expandSelectColumns(sel)
 	if err != nil {
+		cancel()
 		return nil, err
 	}
 
